@@ -44,6 +44,23 @@ theorem sites_exist :
     (sitesOf "dumps_function").length = 1 ∧ (sitesOf "dumps_json_function").length = 1 ∧
     (sitesOf "load_function").length = 2 := by decide
 
+/-- the only tests and context managers a `__call__` may contain -/
+def allowedBranch : List String :=
+  ["isinstance(source, Path)", "not (isinstance(source, Path))", "isinstance(sink, Path)",
+   "not (isinstance(sink, Path))", "with sink.open('w') as f", "with source.open('r') as f"]
+
+/-- **The whole body.**  Apart from the yaml calls, a `__call__` contains nothing but the conversion of
+a file name into a `Path`; no early return, no other statement.  A Path sink is opened with `'w'`
+(truncating, text mode), a Path source with `'r'`; the `dumps` variants and `load` return PyYAML's
+result itself, the `dump` variants return nothing. -/
+theorem skeleton :
+    otherStatements = [("dump_function", ["isinstance(sink, str)"], "sink = Path(sink)"),
+                       ("dump_json_function", ["isinstance(sink, str)"], "sink = Path(sink)")] ∧
+    callSites.all (fun s => s.branch.all (fun b => allowedBranch.contains b)) = true ∧
+    callSites.all (fun s => s.returned ==
+      (s.factory == "load_function" || s.factory == "dumps_function" || s.factory == "dumps_json_function")) = true := by
+  decide
+
 theorem textOf_eq_of_sameCall (f g : String) (h : sameCall f g = true)
     (yaml : String → String → List (String × String) → String) (env : String → String)
     (s d : CallSite) (hs : s ∈ sitesOf f) (hd : d ∈ sitesOf g) : textOf yaml env s = textOf yaml env d := by
